@@ -27,6 +27,18 @@ pub fn init(value: Features) {
     });
 }
 
+/// Verification hook: (re)set the feature state of this thread, bypassing the once-only check.
+#[cfg(feature = "verif")]
+pub fn verif_force(value: Option<Features>) {
+    FEATURES.with(|features| *features.borrow_mut() = value);
+}
+
+/// Verification hook: build a [`Features`] value directly.
+#[cfg(feature = "verif")]
+pub fn verif_features(stack: bool) -> Features {
+    Features { stack }
+}
+
 fn with_features<F, R>(callback: F) -> R
 where
     F: Fn(&Features) -> R,
